@@ -1,1 +1,135 @@
-Require Import Verif.Model.C05_Types Verif.Model.C05_Codec Verif.Model.C05_FS.
+(* C05: non-vacuity — concrete, non-trivial instances meeting the hypotheses of each theorem. *)
+From Coq Require Import List NArith ZArith Bool Arith Lia.
+Import ListNotations.
+Require Import Verif.Model.C05_Types Verif.Gen.C05_CacheLayout Verif.Model.C05_Codec Verif.Model.C05_FS.
+Require Import Verif.Proofs.C05_Codec Verif.Proofs.C05_FSLemmas Verif.Proofs.C05_FS Verif.Proofs.C05.
+Open Scope N_scope.
+
+(* ---- codec ---- *)
+Definition kA : list N := map N.of_nat (seq 100 32).
+Definition oA : list N := map N.of_nat (seq 200 32).
+Example kA_wf : wf_id kA /\ wf_id oA.
+Proof. split; (split; [reflexivity | repeat constructor]). Qed.
+
+Example format_concrete :
+  firstn 12 (format_entry kA oA 12345 1700000000000000000) = [118; 49; 32; 54; 52; 54; 53; 54; 54; 54; 55; 54] /\
+  length (format_entry kA oA 12345 1700000000000000000) = 175%nat.
+Proof. split; vm_compute; reflexivity. Qed.
+Example parse_format_concrete :
+  parse_entry kA (format_entry kA oA 12345 1700000000000000000) = Some (oA, 12345, 1700000000000000000).
+Proof. vm_compute. reflexivity. Qed.
+Example prefix_rejected : parse_entry kA (firstn 174 (format_entry kA oA 12345 1700000000000000000)) = None.
+Proof. vm_compute. reflexivity. Qed.
+Example strict_prefix_inhabited : strict_prefix (firstn 174 (format_entry kA oA 5 7)) (format_entry kA oA 5 7).
+Proof. exists (skipn 174 (format_entry kA oA 5 7)). split; [vm_compute; discriminate | symmetry; apply firstn_skipn]. Qed.
+Example other_id_rejected : parse_entry oA (format_entry kA oA 12345 1700000000000000000) = None.
+Proof. vm_compute. reflexivity. Qed.
+(* ParseInt quirks that the model keeps: "+5" and "-0" are accepted, "-1", "1_0" and an over-long number are not *)
+Definition with_size (s : list N) : list N :=
+  firstn 133 (format_entry kA oA 0 7) ++ repeat 32 (20 - length s) ++ s ++ skipn 153 (format_entry kA oA 0 7).
+Example quirk_plus : parse_entry kA (with_size [43; 53]) = Some (oA, 5, 7).
+Proof. vm_compute. reflexivity. Qed.
+Example quirk_minus_zero : parse_entry kA (with_size [45; 48]) = Some (oA, 0, 7).
+Proof. vm_compute. reflexivity. Qed.
+Example quirk_negative : parse_entry kA (with_size [45; 49]) = None.
+Proof. vm_compute. reflexivity. Qed.
+Example quirk_underscore : parse_entry kA (with_size [49; 95; 48]) = None.
+Proof. vm_compute. reflexivity. Qed.
+Example quirk_overflow : parse_entry kA (with_size (repeat 57 20)) = None.
+Proof. vm_compute. reflexivity. Qed.
+Example quirk_max : parse_entry kA (with_size (dec_of_N max_int64)) = Some (oA, max_int64, 7).
+Proof. vm_compute. reflexivity. Qed.
+
+(* ---- state machine, with the two-valued hash H2 (collision-free on the stored content [1;2;3]) ---- *)
+Definition c2 : choice := mkCh 1000 1700000000000000001 2 (FD (H2 x123)) false.
+Definition cfin : choice := mkCh 1000 0 1 (FA []) true.
+Definition k6 : list N := repeat 6 32.
+
+(* two writers of the same content under two keys, interleaved byte by byte; the first dies after two bytes;
+   the second completes; the data file is deleted (while nobody holds it) and re-put by a third writer; the
+   index of k6 is truncated at a quiescent point; Trim runs; lookups of every kind run to completion *)
+Definition demo_trace : list label :=
+  [LSpawn (OpPut k5 x123); LSpawn (OpPut k6 x123)] ++
+  [LStep 0 c1; LStep 0 c1; LStep 1 c1; LStep 1 c1; LStep 0 c1; LStep 1 c1; LStep 0 c1; LCrash 0] ++
+  repeat (LStep 1 c1) 9 ++
+  [LSpawn (OpGetFile k6)] ++ repeat (LStep 2 c1) 5 ++
+  [LSpawn (OpGetBytes k6)] ++ repeat (LStep 3 c2) 8 ++
+  [LSpawn (OpGetFile k5)] ++ repeat (LStep 4 c1) 1 ++
+  [LDelete (FD (H2 x123)); LSpawn (OpPut k5 x123)] ++ repeat (LStep 5 c2) 11 ++
+  [LTrunc (FA k6) 100 1000; LSpawn (OpGet k6)] ++ repeat (LStep 6 c1) 2 ++
+  [LSpawn (OpGet k5)] ++ repeat (LStep 7 c1) 3 ++
+  [LTouch (FA k6) 1; LSpawn OpTrim; LStep 8 c1; LStep 8 (mkCh 1000 0 1 (FA k6) false); LStep 8 c1; LStep 8 cfin].
+
+Definition demo_final : option state := Eval vm_compute in exec H2 init_state demo_trace.
+
+Example demo_runs : exists s, demo_final = Some s /\
+  map (fun c => match c with PDone r => Some r | _ => None end) (st_procs s) =
+  [ None;                                                         (* writer 0: crashed *)
+    Some RUnit;                                                   (* writer 1: done *)
+    Some (RFile k6 (H2 x123) 3 (Some x123));                      (* GetFile k6: hit, the path held [1;2;3] *)
+    Some (RBytes k6 x123);                                        (* GetBytes k6: hit *)
+    Some (RMiss k5);                                              (* GetFile k5: the dead writer never wrote an index entry *)
+    Some RUnit;                                                   (* third writer: done *)
+    Some (RMiss k6);                                              (* Get k6 after truncating its index file to 100 bytes *)
+    Some (RGet k5 (H2 x123) 3 1700000000000000001);               (* Get k5 *)
+    Some RUnit ] /\                                               (* Trim removed the aged index file of k6 *)
+  read_path (st_fs s) (FA k6) = None /\ read_path (st_fs s) (FD (H2 x123)) = Some x123.
+Proof. eexists. split; [reflexivity |]. split; [reflexivity | split; reflexivity]. Qed.
+
+(* the hypotheses of inv_reachable / getfile_sound / getbytes_sound are met by that state *)
+Example demo_reachable : forall s, demo_final = Some s ->
+  reachable H2 s /\ H_cf_on H2 (st_stored s) /\ Inv H2 s.
+Proof.
+  intros s Hs. assert (Hr : reachable H2 s).
+  { exists demo_trace. split; [reflexivity |]. unfold demo_final in Hs. exact Hs. }
+  assert (Hcf : H_cf_on H2 (st_stored s)).
+  { unfold demo_final in Hs. inversion Hs; subst s. cbn [st_stored].
+    intros x y Hx Hy. cbn in Hx. assert (x = x123) by (repeat (destruct Hx as [<- | Hx]; [reflexivity |]); destruct Hx). subst x.
+    unfold H2 in Hy. rewrite list_eqb_N_refl in Hy.
+    destruct (bytes_eqb y x123) eqn:E; [apply bytes_eqb_eq; auto | discriminate]. }
+  split; [exact Hr |]. split; [exact Hcf |]. exact (inv_reachable_proof H2 H2_wf s Hr Hcf).
+Qed.
+
+Example demo_getfile_sound : forall s, demo_final = Some s ->
+  exists x, In (k6, x) (st_stored s) /\ Some x123 = Some x.
+Proof.
+  intros s Hs. destruct (demo_reachable s Hs) as (Hr & Hcf & _).
+  assert (Hn : nth_error (st_procs s) 2 = Some (PDone (RFile k6 (H2 x123) 3 (Some x123)))).
+  { unfold demo_final in Hs. inversion Hs; subst s. reflexivity. }
+  destruct (getfile_sound_proof H2 H2_wf s 2 _ _ _ _ Hr Hcf Hn) as (x & H1 & _ & _ & H4). exists x. auto.
+Qed.
+
+(* crash_anywhere instance: the writer is killed after 3 of its steps (one byte written); lookups miss *)
+Example crash_instance :
+  exists s, exec H2 init_state (LSpawn (OpPut k5 x123) :: map (LStep 0) [c1; c1; c1] ++ LCrash 0 :: LSpawn (OpGetFile k5) :: map (LStep 1) [c1]) = Some s /\
+            nth_error (st_procs s) 1 = Some (PDone (RMiss k5)) /\ read_path (st_fs s) (FD (H2 x123)) = Some [1].
+Proof. eexists. split; [vm_compute; reflexivity |]. split; reflexivity. Qed.
+(* ... and killed after all but its last step (index written): the lookup hits with exactly x *)
+Example crash_instance_late :
+  exists s, exec H2 init_state (LSpawn (OpPut k5 x123) :: map (LStep 0) (repeat c1 11) ++ LCrash 0 :: LSpawn (OpGetBytes k5) :: map (LStep 1) (repeat c2 8)) = Some s /\
+            nth_error (st_procs s) 1 = Some (PDone (RBytes k5 x123)).
+Proof. eexists. split; [vm_compute; reflexivity |]. reflexivity. Qed.
+Example crash_hypothesis : forall y, H2 y = H2 x123 -> y = x123.
+Proof. intros y Hy. apply (H2_cf k5 x123 y); [left; reflexivity | exact Hy]. Qed.
+
+(* same_content_idempotent instance: k5 committed, a second writer of the same content under k6 is about to write *)
+Definition commit_trace : list label :=
+  [LSpawn (OpPut k5 x123)] ++ repeat (LStep 0 c1) 12 ++ [LSpawn (OpPut k6 x123); LStep 1 c1].
+Definition commit_state : option state := Eval vm_compute in exec H2 init_state commit_trace.
+Example committed_instance : forall s, commit_state = Some s ->
+  committed H2 (st_fs s) k5 x123 /\ nth_error (st_procs s) 1 = Some (PPutVOpen k6 x123 3) /\
+  put_content (PPutVOpen k6 x123 3) = Some x123.
+Proof.
+  intros s Hs. unfold commit_state in Hs. inversion Hs; subst s. clear Hs.
+  split; [| split; reflexivity]. split; [| reflexivity].
+  eexists. exists 1700000000000000000. split; [reflexivity |]. vm_compute. reflexivity.
+Qed.
+
+(* quiescence is a real restriction: the same truncation that midwrite_truncate_refuted uses is refused by LTrunc *)
+Example trunc_refused_while_held :
+  exec H2 init_state ([LSpawn (OpPut k5 x123)] ++ repeat (LStep 0 c1) 4 ++ [LTrunc (FD (H2 x123)) 0 1000]) = None.
+Proof. vm_compute. reflexivity. Qed.
+Example trunc_allowed_when_quiescent :
+  exists s, exec H2 init_state ([LSpawn (OpPut k5 x123)] ++ repeat (LStep 0 c1) 4 ++ [LCrash 0; LTrunc (FD (H2 x123)) 1 1000]) = Some s /\
+            read_path (st_fs s) (FD (H2 x123)) = Some [1].
+Proof. eexists. split; [vm_compute; reflexivity | reflexivity]. Qed.
